@@ -387,12 +387,17 @@ func (c *Ctx) execInstr(s *State, in ssa.Instruction, out *[]retPath) []*State {
 			_ = id
 		}
 		if obj := x.Object(); obj != nil {
+			// only local variables and parameters (not struct fields or package-level objects)
+			if v, ok := obj.(*types.Var); !ok || v.IsField() || (obj.Pkg() != nil && obj.Parent() == obj.Pkg().Scope()) {
+				break
+			}
 			fr := s.top()
-			fr.locals[obj.Name()] = c.val(s, x.X)
 			if x.IsAddr {
+				fr.locals[obj.Name()] = c.val(s, x.X)
 				fr.localIsAddr[obj.Name()] = true
-			} else {
-				delete(fr.localIsAddr, obj.Name())
+			} else if !fr.localIsAddr[obj.Name()] {
+				// (a variable that lives in memory keeps being read through its address)
+				fr.locals[obj.Name()] = c.val(s, x.X)
 			}
 		}
 	case *ssa.Alloc:
@@ -580,6 +585,7 @@ func (c *Ctx) execUnOp(s *State, x *ssa.UnOp) {
 			c.setVal(s, x, c.loadGlobal(s, g))
 			return
 		}
+		c.copyLockCheck(s, x, p)
 		c.setVal(s, x, c.loadPtr(s, x, p, x.Type()))
 	case token.NOT:
 		c.setVal(s, x, Sc{T: Not(c.val(s, x.X).(Sc).T)})
@@ -1275,4 +1281,41 @@ func (c *Ctx) valuesEqual(s *State, a, b Value, t types.Type) Term {
 	}
 	c.unsupported(fmt.Sprintf("== on %T and %T", a, b))
 	return c.freshConst("eq", SBool)
+}
+
+// containsLock: the type contains a sync.Mutex / RWMutex by value (transitively).
+func containsLock(t types.Type, depth int) bool {
+	if depth > 6 {
+		return false
+	}
+	if n, ok := t.(*types.Named); ok {
+		k := typeKey(n)
+		if k == "sync.Mutex" || k == "sync.RWMutex" || k == "sync.Once" || k == "sync.WaitGroup" {
+			return true
+		}
+	}
+	switch u := t.Underlying().(type) {
+	case *types.Struct:
+		for i := 0; i < u.NumFields(); i++ {
+			if containsLock(u.Field(i).Type(), depth+1) {
+				return true
+			}
+		}
+	case *types.Array:
+		return containsLock(u.Elem(), depth+1)
+	}
+	return false
+}
+
+// copyLockCheck: loading a whole value that contains a mutex from shared memory makes a copy whose
+// guarded fields are no longer protected by the original mutex (and, for a cache or a server object,
+// silently forks its state). Loading a freshly built local value (constructor result) is fine.
+func (c *Ctx) copyLockCheck(s *State, x *ssa.UnOp, p Sc) {
+	if c.scout > 0 || !containsLock(x.Type(), 0) {
+		return
+	}
+	name := fmt.Sprintf("%s/copylock@UnOp#%d", fnKey(x.Parent()), c.ordinal("nil", x))
+	fresh := c.isFreshLocal(s, p.T)
+	c.structural(fresh, "copylock", name, posOf(c.eng.prog, x),
+		"copy of a value containing a mutex ("+x.Type().String()+") from shared memory: the copy is not protected by (and diverges from) the original", []string{"C19", "C07"})
 }
